@@ -237,9 +237,9 @@ func flowStatusWord(s string, coroutine bool) string {
 	case !coroutine:
 		return "-"
 	case strings.Contains(s, "$short read"):
-		return "$short read"
+		return "short read"
 	case strings.Contains(s, "$short write"):
-		return "$short write"
+		return "short write"
 	case s == "ok":
 		return "ok"
 	}
@@ -482,7 +482,7 @@ func flowPart(r *hlib.Run, l *loaded) {
 		}
 	}
 	// the interpreter against the generated C (a sample of the programs)
-	nC := 24
+	nC := 12
 	if r.Thorough {
 		nC = 240
 	}
